@@ -95,6 +95,9 @@ type c04Gen struct {
 	config   func() (ops []string, textOps map[string]string, kws []string)
 	setup    func(comments, comfort bool)
 	setOpt   func(on bool)
+	parseKind func(src string) int                  // Parser.Parse with the current optimizer setting: 0 AST, 1 error, 2 panic
+	ident    func(name string) (known, isFunc bool)  // the generator's identifier chain below the arguments
+	pconfig  func() (ops, unary []string)
 }
 
 func c04NumberParser() parser2.NumberParser[float64] {
@@ -131,6 +134,29 @@ func c04MakeGen[V any](name string, g *funcGen.FunctionGenerator[V], arg V, args
 			return ops, to, kw
 		},
 		setup: func(comments, comfort bool) { p.VerifSetComments(comments); p.Comfort(comfort) },
+		parseKind: func(src string) (kind int) {
+			defer func() {
+				if r := recover(); r != nil {
+					kind = 2
+				}
+			}()
+			if _, err := p.Parse(src, g.Identifier().AddArgs(args, nil)); err != nil {
+				return 1
+			}
+			return 0
+		},
+		ident: func(name string) (bool, bool) {
+			ids := g.Identifier()
+			if ids == nil {
+				return false, false
+			}
+			i, ok := ids(name)
+			return ok, ok && i.IsFunc
+		},
+		pconfig: func() ([]string, []string) {
+			ops, unary, _, _ := p.VerifParseConfig()
+			return ops, unary
+		},
 		setOpt: func(on bool) {
 			if on {
 				p.SetOptimizer(optimizer)
@@ -188,6 +214,9 @@ type C4Result struct {
 	Received  int                   `json:"received"`
 	Total     int                   `json:"total"`
 	Phase     string                `json:"phase,omitempty"`
+	PKind     int                   `json:"pkind"`     // Parser.Parse: 0 AST, 1 error, 2 panic, 3 not observed
+	BadNums   []string              `json:"bad_nums,omitempty"`
+	Known     [][2]string           `json:"known,omitempty"` // identifiers of the input the generator knows: name, "c"|"f"
 }
 
 // time bound for Generate on an input of n bytes: the property's "linear-ish".
@@ -255,7 +284,7 @@ func c04RunOne(c *C4Case, hardScale float64) C4Result {
 	g.setup(c.Comments, c.Comfort)
 	g.setOpt(!c.NoOpt)
 	src := c04Text(c.Segs)
-	res := C4Result{ID: c.ID}
+	res := C4Result{ID: c.ID, PKind: 3}
 	hard := time.Duration(float64(c04Hard(len(src))) * hardScale)
 	if c.Eval {
 		hard += 4 * c04GuardAllowance
@@ -351,6 +380,38 @@ func c04RunOne(c *C4Case, hardScale float64) C4Result {
 		case <-time.After(hard):
 		}
 	}
+	// 4. the parser half: outcome kind of Parser.Parse, which number images ParseNumber rejects, which identifiers the
+	// generator knows (what the parser model needs besides the tokens)
+	if len(res.Tokens) <= 300 {
+		res.Phase = "parse"
+		pch := make(chan int, 1)
+		go func() { pch <- g.parseKind(src) }()
+		select {
+		case res.PKind = <-pch:
+		case <-time.After(hard):
+			res.Outcome, res.Msg = 3, fmt.Sprintf("Parse did not return within %v", hard)
+			return res
+		}
+		seenN, seenI := map[string]bool{}, map[string]bool{}
+		for _, t := range res.Tokens {
+			switch {
+			case t.Typ == tNumber && !seenN[t.Image]:
+				seenN[t.Image] = true
+				if g.parseKind(t.Image) != 0 {
+					res.BadNums = append(res.BadNums, t.Image)
+				}
+			case t.Typ == tIdent && !seenI[t.Image]:
+				seenI[t.Image] = true
+				if known, isFunc := g.ident(t.Image); known {
+					k := "c"
+					if isFunc {
+						k = "f"
+					}
+					res.Known = append(res.Known, [2]string{t.Image, k})
+				}
+			}
+		}
+	}
 	res.Phase = ""
 	return res
 }
@@ -440,7 +501,7 @@ func c04Exec(cases []C4Case, dir, tag string, par int) map[int]*C4Result {
 					msg := c6PanicLine(stderr.String())
 					os.WriteFile(filepath.Join(dir, fmt.Sprintf("stderr-%s-%d-%d.txt", tag, bi, round)), stderr.Bytes(), 0o644)
 					mu.Lock()
-					results[bad.ID] = &C4Result{ID: bad.ID, Outcome: 4, Msg: fmt.Sprintf("worker process died (exit %d): %s", code, msg), Site: c04PanicSite(stderr.String())}
+					results[bad.ID] = &C4Result{ID: bad.ID, PKind: 3, Outcome: 4, Msg: fmt.Sprintf("worker process died (exit %d): %s", code, msg), Site: c04PanicSite(stderr.String())}
 					mu.Unlock()
 					seen++
 				}
@@ -682,7 +743,7 @@ func c04Streams(seed int64, tier string, boost int) []C4Case {
 	}
 
 	// ---- random streams
-	for i := 0; i < 350*scale; i++ {
+	for i := 0; i < 250*scale; i++ {
 		gen, cm, cf := s.cfg()
 		n := r.Pick(48)
 		if r.Chance(0.1) {
@@ -690,7 +751,7 @@ func c04Streams(seed int64, tier string, boost int) []C4Case {
 		}
 		s.add(c04Plain(gen, cm, cf, "random-bytes", s.randomBytes(n)))
 	}
-	for i := 0; i < 280*scale; i++ {
+	for i := 0; i < 200*scale; i++ {
 		gen, cm, cf := s.cfg()
 		n := 1 + r.Pick(60)
 		if r.Chance(0.08) {
@@ -698,7 +759,7 @@ func c04Streams(seed int64, tier string, boost int) []C4Case {
 		}
 		s.add(c04Plain(gen, cm, cf, "token-soup", s.soupText(n)))
 	}
-	for i := 0; i < 500*scale; i++ {
+	for i := 0; i < 400*scale; i++ {
 		gen, cm, cf := s.cfg()
 		ps := c04Programs(gen)
 		p := ps[r.Pick(len(ps))]
@@ -881,6 +942,18 @@ func c04CoqTables() string {
 		c := &tokCfg{Name: "x", Ops: ops, TextOps: to, Keywords: kw}
 		t := c.coqTables()
 		b.WriteString(strings.Replace(t, "Definition k_x ", "Definition k4_"+gen+" ", 1))
+		g := c04GetGen(gen)
+		pops, unary := g.pconfig()
+		sort.Strings(unary)
+		strh := g.parseKind("\"s\"") == 0
+		co := func(l []string) string {
+			xs := make([]string, len(l))
+			for i, o := range l {
+				xs[i] = CoqStr(o)
+			}
+			return CoqList(xs)
+		}
+		fmt.Fprintf(&b, "Definition p4_%s : c04_ptab := (%s, %s, %s, %s).\n", gen, co(pops), co(unary), CoqBool(strh), co(c04Args))
 	}
 	return b.String()
 }
@@ -952,7 +1025,7 @@ func c04Human(c *C4Case, r *C4Result, src string) map[string]any {
 		show = show[:100] + " ... " + show[len(show)-60:]
 	}
 	h := map[string]any{"input": fmt.Sprintf("%q", show), "bytes": len(src), "generator": c.Gen, "comments": c.Comments, "comfort": c.Comfort, "optimizer": !c.NoOpt,
-		"stream": c.Src, "outcome": c04OutcomeName[r.Outcome], "message": r.Msg, "micros": r.Micros, "fresh_kb": r.StackKB, "tokens": len(r.Tokens), "repro": c}
+		"stream": c.Src, "outcome": c04OutcomeName[r.Outcome], "message": r.Msg, "micros": r.Micros, "fresh_kb": r.StackKB, "tokens": len(r.Tokens), "parse": []string{"AST", "error", "panic", "not observed"}[r.PKind], "repro": c}
 	if r.Outcome >= 2 {
 		h["signature"] = c04Signature(c, r)
 	} else {
@@ -1108,7 +1181,7 @@ func cmdC04(seed int64, tier, outDir string) {
 			sum.Skipped["no token stream (hang/crash), judged in Go"]++
 			continue
 		}
-		if c.Src == "fold-bomb" && c.ID%8 != 0 && optReplay == "" {
+		if false && c.Src == "fold-bomb" && c.ID%8 != 0 && optReplay == "" {
 			// small valid programs from a fixed set of templates: their token streams add nothing to the scanner
 			// comparison; the outcome (returned / panic / hang) is judged above. One in eight still goes through Coq.
 			sum.Skipped["fold-bomb stream: outcome judged in Go, token stream not sent to Coq (1 in 8 is)"]++
@@ -1125,8 +1198,21 @@ func cmdC04(seed int64, tier, outDir string) {
 			cw.prelude = base
 		}
 		cw.prelude += defs.String()
-		cw.Add(fmt.Sprintf("(%d, %s, %s, %s, (%d, %s, %d, %d))", c.ID, c04CoqCfg(c.Gen, c.Comments, c.Comfort, src), in, ob,
-			r.Outcome, CoqBool(r.RecvKnown), r.Received, r.Total))
+		bad := make([]string, len(r.BadNums))
+		for i, b := range r.BadNums {
+			bad[i] = CoqStr(b)
+		}
+		known := make([]string, len(r.Known))
+		for i, k := range r.Known {
+			fn := 0
+			if k[1] == "f" {
+				fn = 1
+			}
+			known[i] = fmt.Sprintf("(%s,%d)", CoqStr(k[0]), fn)
+		}
+		pk := r.PKind
+		cw.Add(fmt.Sprintf("(%d, %s, %s, %s, (%d, %s, %d, %d), (%d, %s, %s, p4_%s))", c.ID, c04CoqCfg(c.Gen, c.Comments, c.Comfort, src), in, ob,
+			r.Outcome, CoqBool(r.RecvKnown), r.Received, r.Total, pk, CoqList(bad), CoqList(known), c.Gen))
 		if big {
 			cw.Flush()
 		}
